@@ -7,7 +7,11 @@ Driver of C11. One case:
 
 `(m (pat P) (dom v…) (objs o…) (sub (c d)…) (schema (cls attr rel coll type|-)…) [(steps S…)])`
 `P ::= (p cls|- sel (attr A)…)`    `A ::= (lit v) | (coll v ex un sel) | (nested P)`
-`S ::= (st E…)`   `E ::= (set i attr v) | (setip i attr v) | (new o) | (free i)`
+`S ::= (st E…)`   `E ::= (set i attr v) | (setip i attr v) | (new o) | (free i) | (peek k keep|drop)`
+optional `(pre E…)`: what happens between the construction of the query object and its first complete evaluation
+(typically `peek`s: evaluations abandoned after `k` results); optional `(domkind list|tuple|gen|iter)`: how the domain
+is handed to `entity_matching` (a one-shot generator / iterator is consumed lazily) — the contents are the same, so the
+model does not look at it.
 
 With `steps` the SAME query object is evaluated once per data state (before the first step and after every step); every
 result field then is the ` | `-separated list of the per-state results (`Match.runSeq`).
@@ -53,12 +57,14 @@ structure Case where
   dom : List Val
   p : Pat
   steps : List (List Edit) := []
+  pre : List Edit := []
 
 def parseEdit : Sexp → Option Edit
   | .list [.atom "set", i, .atom n, v] => do pure (Edit.set (← i.asNat?) n (← parseVal v))
   | .list [.atom "setip", i, .atom n, v] => do pure (Edit.set (← i.asNat?) n (← parseVal v))
   | .list [.atom "new", o] => (parseObj o).map Edit.new
   | .list [.atom "free", i] => i.asNat?.map Edit.free
+  | .list [.atom "peek", k, .atom _] => k.asNat?.map Edit.peek
   | _ => none
 
 def parseStep : Sexp → Option (List Edit)
@@ -79,7 +85,11 @@ def parseCase : Sexp → Option Case
     let steps ← match Sexp.field? items "steps" with
       | some xs => xs.mapM parseStep
       | none => some []
-    pure { w := { objs := objs, doms := [], subclass := sub }, s := s, dom := dom, p := p, steps := steps }
+    let pre ← match Sexp.field? items "pre" with
+      | some xs => xs.mapM parseEdit
+      | none => some []
+    pure { w := { objs := objs, doms := [], subclass := sub }, s := s, dom := dom, p := p, steps := steps,
+           pre := pre }
   | _ => none
 
 def showRun (r : Option (List (List Val))) : String :=
@@ -164,7 +174,9 @@ def joinStates (xs : List String) : String := " | ".intercalate xs
 def run (s : Sexp) : String :=
   match parseCase s with
   | none => "error=bad-case"
-  | some c =>
+  | some c0 =>
+    -- the data at the first complete evaluation (`pre`: edits and abandoned evaluations after construction)
+    let c := { c0 with w := c0.pre.foldl applyEdit c0.w }
     let ws := worlds c.w c.steps
     let seq := fun (Q : Quirks) => joinStates ((runSeq Q c.s c.dom c.p c.w c.steps).map showRun)
     let sp := joinStates (ws.map fun w => showRun (some (specRows w c.dom c.p)))
